@@ -219,6 +219,10 @@ let run mode file =
     | "post" :: toks -> post := Some (fst (parse_tree toks))
     | ["order"; o] -> order := ns_of_csv o
     | ["bval"; v] -> bval := v
+    | ["panic"; msg] ->
+      incr ops;
+      Printf.printf "PROPFAIL case=%s op=1 (commit) rule=commit_of_a_valid_transaction_panics impl=panic:%s model=ok\n" !case_id msg;
+      post := None
     | "child" :: name :: sq :: _ :: toks ->
       let seqv = (match String.split_on_char '=' sq with [_; v] -> n_of_string v | _ -> BinNums.N0) in
       children := !children @ [(bytes_of_hex name, seqv, fst (parse_tree toks))];
